@@ -197,7 +197,8 @@ def run(tier, seed):
         if not r2.violated:
             raise common.Machinery("sanity config %s should violate Coherent/Complete" % cfg)
     rep.add(sanity_configs_violate="stale key after an un-invalidated edit; colliding keys")
-    r = run_tlc("MC_Evaluator", "MC_Evaluator_emit", workers=1, timeout=900)
+    # quick: histories of up to 5 operations (35% sample); thorough: every history of up to 7 operations
+    r = run_tlc("MC_Evaluator", "MC_Evaluator_emit" if tier == "quick" else "MC_Evaluator_emit8", workers=1, timeout=1800, heap="8g")
     hists = r.printed("HIST")
     rep.tlc(r, "MC_Evaluator_emit")
     if len(hists) < 1000:
@@ -218,7 +219,7 @@ def run(tier, seed):
     if nforest < 20:
         raise common.Machinery("ambiguous-forest scenario evaluated only %d trees" % nforest)
     rep.add(forest_order_evaluations=nforest)
-    seeds = [seed, seed + 1] if tier == "quick" else list(range(seed, seed + 12))
+    seeds = [seed, seed + 1] if tier == "quick" else list(range(seed, seed + 40))
     jobs = []
     tid = 0
     for spec in QUANT_SPECS:
